@@ -14,7 +14,17 @@
 (* registered type that nothing reaches mentions registered names only.          *)
 EXTENDS Integers, Sequences, FiniteSets, TLC, Json
 
-CONSTANTS MaxMentions        \* properties of the root
+CONSTANTS MaxMentions,       \* properties of the root
+          Rotate             \* TRUE: each project stands in one place, given by its shape; FALSE: in every place
+
+\* Where the mentioning properties stand.  What a text mentions does not depend on where in the text it does so:
+\*   flat    they are the properties of the root object
+\*   nested  they are the properties of an object that is the property "w" of the root
+\*   atkey   the same, but that property is spelled like a type name, in quotation marks: "@w" (an ordinary key - @w is
+\*           not a type of the project, is not used and is not missing)
+\*   item    they are the properties of an object that is the only item of the array "w" of the root
+\* (allOf and additionalProperties annotate the root object in every case.)
+Places == <<"flat", "nested", "atkey", "item">>
 
 Names == {"a", "b", "c", "d"}
 StringNames == {"a", "c", "d"}
@@ -48,16 +58,17 @@ VARIABLES root,        \* sequence of root mentions
           variant,     \* [Names -> variant]
           registered,  \* subset of Names
           unused,      \* is @z registered too?
+          place,       \* where the mentioning properties stand (an element of Places)
           stage
-vars == <<root, variant, registered, unused, stage>>
+vars == <<root, variant, registered, unused, place, stage>>
 
-Init == root = <<>> /\ variant = [n \in Names |-> <<>>] /\ registered = {} /\ unused = FALSE /\ stage = "root"
+Init == root = <<>> /\ variant = [n \in Names |-> <<>>] /\ registered = {} /\ unused = FALSE /\ place = "flat" /\ stage = "root"
 
 AddMention(m) == /\ stage = "root" /\ Len(root) < MaxMentions
                  /\ (m.pos = "allOf" => \A i \in 1..Len(root) : root[i].pos # "allOf")        \* one object, one allOf list each
                  /\ (m.pos = "addprops" => \A i \in 1..Len(root) : root[i].pos # "addprops")  \* and one additionalProperties rule
                  /\ (m.pos = "key" => \A i \in 1..Len(root) : root[i].pos # "key" \/ root[i].ns # m.ns)  \* no duplicate shortcut key
-                 /\ root' = Append(root, m) /\ UNCHANGED <<variant, registered, unused, stage>>
+                 /\ root' = Append(root, m) /\ UNCHANGED <<variant, registered, unused, place, stage>>
 ChooseVariants(f) == /\ stage = "root" /\ root # <<>>
                      /\ f \in [Names -> UNION {TypeVariants[n] : n \in Names}]
                      /\ \A n \in Names : f[n] \in TypeVariants[n]
@@ -72,12 +83,14 @@ ChooseVariants(f) == /\ stage = "root" /\ root # <<>>
                      \* inheriting from @b must not meet a different additionalProperties setting (that is C07's refusal)
                      /\ (f["b"] = <<"ap-a">> /\ (\E i \in 1..Len(root) : root[i].pos = "allOf"))
                            => \A i \in 1..Len(root) : root[i].pos = "addprops" => root[i].ns = <<"a">>
-                     /\ variant' = f /\ stage' = "register" /\ UNCHANGED <<root, registered, unused>>
-Register(S, z) == /\ stage = "register"
-                  /\ registered' = S /\ unused' = z /\ stage' = "done" /\ UNCHANGED <<root, variant>>
+                     /\ variant' = f /\ stage' = "register" /\ UNCHANGED <<root, registered, unused, place>>
+ShapeNumber(S, z) == Cardinality(S) + Len(root) + (IF z THEN 1 ELSE 0) + Cardinality({n \in Names : variant[n] # <<>>})
+Register(S, z, pl) == /\ stage = "register"
+                      /\ (Rotate => pl = Places[(ShapeNumber(S, z) % Len(Places)) + 1])
+                      /\ registered' = S /\ unused' = z /\ place' = pl /\ stage' = "done" /\ UNCHANGED <<root, variant>>
 Next == \/ \E m \in RootMentions : AddMention(m)
         \/ \E f \in [Names -> {<<>>, <<"a">>, <<"c">>, <<"ap-a">>, <<"ref-a">>, <<"ref-c">>}] : ChooseVariants(f)
-        \/ \E S \in SUBSET Names, z \in BOOLEAN : Register(S, z)
+        \/ \E S \in SUBSET Names, z \in BOOLEAN, i \in 1..Len(Places) : Register(S, z, Places[i])
 Spec == Init /\ [][Next]_vars
 
 Used == UNION {{root[i].ns[j] : j \in 1..Len(root[i].ns)} : i \in 1..Len(root)}
@@ -96,6 +109,6 @@ UsedIsReached == stage = "done" => Used \subseteq Reach
 MissingOnlyIfWithheld == stage = "done" => (Missing = {} <=> Reach \subseteq registered)
 \* registering the unused type changes neither Used nor Missing (they do not mention it)
 Emit == (stage = "done" /\ Hygienic) =>
-          PrintT(ToJson([root |-> root, variant |-> variant, registered |-> registered, unused |-> unused,
+          PrintT(ToJson([root |-> root, variant |-> variant, registered |-> registered, unused |-> unused, place |-> place,
                          used |-> Used, missing |-> Missing]))
 ===============================================================================
